@@ -87,6 +87,14 @@ def run(chk, prog):
                 what = "configuration graph, cut by the cycle check in verify(): " + dc
             else:
                 what = "configuration graph; the cycle check in verify() does not cut it: " + dc
+        if not bounded:
+            from . import depthguard
+            okg, dg = depthguard.scc_bounded(prog, comp)
+            if okg:
+                bounded = True
+                what = what + "; bounded by depth guards: " + dg
+            else:
+                what = what + "; " + dg
         chk.instance("REC", where, "recursion cycle [%s] is depth-bounded" % label, bounded, "depth driven by %s" % what)
         if not bounded:
             chk.finding("REC", comp[0], "scc", "", where,
@@ -143,7 +151,11 @@ def backtrack_rule(chk, prog):
         if f.crate == "milu" and f.path.startswith("parser::") and f.kind == "Fn" and "::" not in f.path[len("parser::"):]:
             rule_fns[f.path[len("parser::"):]] = f
     pegs = {}
+    c09.detect_param_token_rules(rule_fns)
+    c09.detect_wrapper_rules(prog, rule_fns)
     for name, f in rule_fns.items():
+        if name in c09.PARAM_TOKEN_RULES:
+            continue
         tree = et.build_local(f, 0)
         names = [n[1] for n in et.walk(tree) if n[0] == "call"]
         if any(n.startswith(("branch::", "sequence::", "multi::", "complete::", "combinator::", "error::context")) for n in names):
@@ -188,6 +200,8 @@ def backtrack_rule(chk, prog):
         if t == "ws":
             return leading(p[1], depth)
         if t == "tok":
+            if len(p) > 3:
+                return {((("BTOK", p[1].lower()),), False)}    # keyword with a word boundary: cannot be the start of an identifier
             return {((p[1].lower(),), False)}
         if t == "ref":
             if p[1] in rec:
@@ -269,6 +283,14 @@ def backtrack_rule(chk, prog):
                     if pi and isinstance(pi[-1], tuple) and pi[-1][0] == "REC" and mi and len(pi) == 1:
                         for j in range(i + 1, len(leads)):
                             if pi[-1][1] in heads[j]:
+                                return (i, j, pi)
+            # a keyword matched with a bare tag() (no word boundary) and followed by a recursive rule, while a later alternative can
+            # start with an identifier: `iffy(..)` is parsed as `if fy(..)`, fails at `then`, and is parsed again as a call
+            for i in range(len(leads)):
+                for (pi, mi) in leads[i]:
+                    if len(pi) >= 2 and isinstance(pi[0], str) and re.match(r"^[a-z_]+$", pi[0]) and isinstance(pi[-1], tuple) and pi[-1][0] == "REC":
+                        for j in range(i + 1, len(leads)):
+                            if "identifier" in heads[j]:
                                 return (i, j, pi)
             for i in range(len(leads)):
                 for j in range(i + 1, len(leads)):
